@@ -11,21 +11,27 @@ import numpy as np
 from ..oracle import geometry as G
 from . import cells
 
-CELL_KINDS = ['ortho', 'mild', 'limit', 'beyond', 'family', 'rotated', 'rot-ortho']
+CELL_KINDS = ['ortho', 'mild', 'limit', 'beyond', 'family', 'rotated', 'rot-ortho', 'flat', 'needle', 'skew']
+# cells whose short lattice vectors are +-1 COMBINATIONS of the cell vectors (shorter than the cell vectors involved)
+COMBO_KINDS = ('flat', 'needle', 'skew')
 SHAPES = ['one-one', 'one-many', 'many-one', 'many-many', 'list-tuple', 'layout', 'system-index', 'displacement']
-PAIR_CLASSES = ['inside', 'wrapnear', 'face', 'corner', 'half', 'out1', 'out2', 'image']
+PAIR_CLASSES = ['inside', 'wrapnear', 'face', 'corner', 'half', 'out1', 'out2', 'image', 'shortvec', 'halfshort']
+NEAR_SHORT = ('shortvec', 'halfshort')
 ORIGINS = ['zero', 'near', 'far']
 SCALES = [1.0, 1e-3, 1e3]
 PBCS = cells.PBCS
 FAMILIES4 = ['hexagonal', 'rhombohedral', 'monoclinic', 'triclinic']
-NCOMBO = len(CELL_KINDS) * len(PBCS) * len(SHAPES)          # 448
+NK = len(CELL_KINDS)
+NCOMBO = NK * len(PBCS) * len(SHAPES)                       # 640
+WFRAC = 0.15              # smallest perpendicular width / longest cell vector, ordinary kinds
+WFRAC_COMBO = 0.06        # ... for the flat / needle / skew kinds
 
 
 def stratified(i):
     """case index -> (cell kind, pbc, call shape, origin class, scale, round)."""
-    kind = CELL_KINDS[i % 7]
-    pbc = PBCS[(i // 7) % 8]
-    shape = SHAPES[(i // 56) % 8]
+    kind = CELL_KINDS[i % NK]
+    pbc = PBCS[(i // NK) % 8]
+    shape = SHAPES[(i // (NK * 8)) % 8]
     rnd = i // NCOMBO
     origin = ORIGINS[(i + rnd) % 3]
     scale = SCALES[rnd % 3]
@@ -41,11 +47,107 @@ def _lengths(rng):
     return lx, lx * rng.uniform(0.7, 1.5), lx * rng.uniform(0.7, 1.6)
 
 
-def gen_cell(rng, kind, origin_class, scale, sub=0):
+def short_vectors(vects, axes=(True, True, True), min_nonzero=1):
+    """The +-1 combinations n.vects (n_i in {-1,0,1}, n_i = 0 where axes[i] is False, one representative of each
+    +-pair, at least ``min_nonzero`` non-zero coefficients), sorted by length.  Returns (ns, vectors, lengths)."""
+    v = np.asarray(vects, float)
+    ns = []
+    for n in np.ndindex(3, 3, 3):
+        n = np.array(n) - 1
+        if np.any(n[~np.array(axes, bool)] != 0) or np.abs(n).sum() < min_nonzero:
+            continue
+        if tuple(n) < tuple(-n):                              # one of each +-pair
+            continue
+        ns.append(n)
+    if not ns:
+        return np.zeros((0, 3)), np.zeros((0, 3)), np.zeros(0)
+    ns = np.array(ns, float)
+    vs = ns @ v
+    ls = np.linalg.norm(vs, axis=1)
+    k = np.argsort(ls, kind='stable')
+    return ns[k], vs[k], ls[k]
+
+
+def combo_ratio(vects, axes=(True, True, True)):
+    """(shortest +-1 combination of >= 2 cell vectors along ``axes``) / (shortest of the three cell vectors).
+    Below 1: a lattice vector shorter than every cell vector is a combination.  inf when < 2 axes are flagged."""
+    _, _, ls = short_vectors(vects, axes, min_nonzero=2)
+    if not len(ls):
+        return np.inf
+    return float(ls[0] / np.linalg.norm(np.asarray(vects, float), axis=1).min())
+
+
+def _tilt_fractions(rng):
+    """Three tilt factors within the LAMMPS limits, each either exactly at the limit (+-0.5) or in 0.3..0.5."""
+    f = np.where(rng.random(3) < 0.5, 0.5, rng.uniform(0.3, 0.5, 3))
+    return f * rng.choice([-1.0, 1.0], 3)
+
+
+def _axes_for(pbc):
+    """Axes along which a short combination has to lie to be a lattice vector of the setting: the periodic ones when
+    at least two are periodic, otherwise all (no combination is a lattice vector there; the cell is still skewed)."""
+    if pbc is not None and sum(bool(x) for x in pbc) >= 2:
+        return tuple(bool(x) for x in pbc)
+    return (True, True, True)
+
+
+def _combo_cell(rng, kind, sub, pbc):
+    """One candidate cell of kind flat / needle / skew.  Returns (vects, accepted)."""
+    axes = _axes_for(pbc)
+    m = sub // 8                                              # sub = pbc index + 8 * (shape index + 8 * round)
+    if kind == 'flat':
+        # LAMMPS-normalised, tilts within the limits, one small perpendicular width: c -+ b (-+ a) is shorter than c
+        lx = rng.uniform(3.0, 6.0)
+        ly = lx * rng.uniform(0.7, 1.5)
+        lz = lx * rng.uniform(0.1, 0.5)
+        f = _tilt_fractions(rng)
+        v = G.vects_from_lammps(lx, ly, lz, f[0] * lx, f[1] * lx, f[2] * ly)
+        # the short combinations involve b and c: bring them onto the periodic axes (cyclic, keeps handedness);
+        # identity = LAMMPS-normalised (used for F,T,T; one in three otherwise)
+        perm = {(False, True, True): 0, (True, False, True): 1, (True, True, False): 2}.get(axes, m % 3)
+        v = v[[[0, 1, 2], [2, 0, 1], [1, 2, 0]][perm]]
+        return v, combo_ratio(v, axes) <= 0.95
+    if kind == 'needle':
+        # two short vectors and a long, tilted one (tilts within the LAMMPS limits); long axis c / a / b in turn
+        lz = rng.uniform(3.0, 6.0)
+        lx = lz * rng.uniform(0.15, 0.3)
+        ly = lx * rng.uniform(0.8, 1.25)
+        f = _tilt_fractions(rng)
+        v = G.vects_from_lammps(lx, ly, lz, f[0] * lx, f[1] * lx, f[2] * ly)
+        v = v[[[0, 1, 2], [2, 0, 1], [1, 2, 0]][m % 3]]
+        return v, True
+    if kind == 'skew':
+        # a short cell vector sheared along a longer one, beyond the LAMMPS limits (triangular form kept, every other
+        # one rotated to a general orientation): v_j + t v_k, so that v_j' - sign(t) v_k is shorter than all three
+        pairs = [(j, k) for j in range(3) for k in range(j) if axes[j] and axes[k]]
+        j, k = pairs[m % len(pairs)]
+        o = 3 - j - k
+        ln = np.empty(3)
+        ln[k] = rng.uniform(3.0, 6.0)
+        ln[j] = ln[k] * rng.uniform(0.45, 0.8)
+        ln[o] = ln[k] * rng.uniform(0.8, 1.5)
+        t0 = rng.uniform(-0.2, 0.2, 3)
+        v = G.vects_from_lammps(ln[0], ln[1], ln[2], t0[0] * ln[0], t0[1] * ln[0], t0[2] * ln[1])
+        t = rng.choice([-1.0, 1.0]) * (1.0 if m % 3 == 0 else rng.uniform(0.6, 1.4))
+        v[j] = v[j] + t * v[k]
+        if j == 2 and all(axes) and (m // 3) % 2 == 1:        # sheared along both others: three-vector combinations
+            v[2] = v[2] + rng.choice([-1.0, 1.0]) * rng.uniform(0.6, 1.4) * v[1 - k]
+        if m % 2 == 1:
+            v = v @ G.random_rotation(rng).T
+        return v, combo_ratio(v, axes) <= 0.95
+    raise ValueError(kind)
+
+
+def gen_cell(rng, kind, origin_class, scale, sub=0, pbc=None):
     """dict(vects, origin, L, kind, ortho(bool)).  Cells are right-handed and keep
-    min perpendicular width >= 0.15 L so that the exhaustive search stays small."""
-    for _ in range(200):
-        if kind in ('ortho', 'rot-ortho'):
+    min perpendicular width >= 0.15 L (0.06 L for the flat / needle / skew kinds) so that the exhaustive search
+    stays small.  ``pbc`` only steers which axes carry the short combinations of the flat / skew kinds."""
+    wfrac = WFRAC_COMBO if kind in COMBO_KINDS else WFRAC
+    for _ in range(400):
+        ok = True
+        if kind in COMBO_KINDS:
+            v, ok = _combo_cell(rng, kind, sub, pbc)
+        elif kind in ('ortho', 'rot-ortho'):
             lx, ly, lz = _lengths(rng)
             if sub % 3 == 0:
                 ly = lz = lx                                   # cubic
@@ -80,7 +182,7 @@ def gen_cell(rng, kind, origin_class, scale, sub=0):
         else:
             raise ValueError(kind)
         L = np.linalg.norm(v, axis=1).max()
-        if G.volume(v) > 0 and G.perp_widths(v).min() >= 0.15 * L:
+        if ok and G.volume(v) > 0 and G.perp_widths(v).min() >= wfrac * L:
             break
     else:  # pragma: no cover
         raise RuntimeError('no acceptable cell for ' + kind)
@@ -127,11 +229,73 @@ def _rel_point(rng, cls):
     raise ValueError(cls)
 
 
-def rel_pair(rng, cls, vects, r0=None):
+def _inside(r):
+    return bool(np.all((r >= 0.0) & (r <= 1.0)))
+
+
+def near_short_pair(rng, cls, vects, pbc=None, r0=None):
+    """A pair whose DIRECT separation is f * s + delta, s one of the shortest +-1 combinations of the cell vectors:
+
+    shortvec   f = 1, |delta| = 1e-6 .. 0.2 |s| (sometimes 0): the separation is a short lattice vector +- an offset;
+    halfshort  0.5 <= f < 1: the direct separation is short, yet the image d - s is shorter still.  Where s is
+               shorter than every cell vector, f is mostly drawn so that |d| < (shortest cell vector) / 2 with delta
+               perpendicular to s (a direct separation that looks as if it needed no image search).
+
+    s is taken along the periodic axes (70 %; it then is a lattice vector of the setting) or along all axes (30 %, and
+    whenever fewer than one axis is periodic; the shift must then not be applied along the free axes).  Both points
+    are placed inside the cell (faces included); with a fixed r0 this is attempted with either sign of s."""
+    v = np.asarray(vects, float)
+    vmin = np.linalg.norm(v, axis=1).min()
+    per = (True, True, True) if pbc is None else tuple(bool(x) for x in pbc)
+    axes = per if (any(per) and rng.random() < 0.7) else (True, True, True)
+    ns, vs, ls = short_vectors(v, axes, 1)
+    multi = np.nonzero(np.abs(ns).sum(axis=1) >= 2)[0]
+    idx = multi if (len(multi) and rng.random() < 0.8) else np.arange(len(ns))
+    pick = int(idx[0] if rng.random() < 0.6 else idx[int(rng.integers(0, min(3, len(idx))))])
+    n, s, ls_ = ns[pick], vs[pick], float(ls[pick])
+    dirn = rng.normal(size=3)
+    dirn /= np.linalg.norm(dirn)
+    if cls == 'shortvec':
+        f = 1.0
+        delta = dirn * ls_ * (0.0 if rng.random() < 0.15 else 10.0 ** rng.uniform(-6.0, -0.7))
+    elif cls == 'halfshort':
+        if ls_ < 0.97 * vmin and rng.random() < 0.7:
+            f = 0.5 + rng.uniform(0.15, 0.85) * (0.5 * vmin / ls_ - 0.5)
+            perp = dirn - (dirn @ s) / (s @ s) * s
+            perp /= max(np.linalg.norm(perp), 1e-300)
+            delta = perp * rng.uniform(0.0, 0.5) * (0.5 * vmin - f * ls_)
+        else:
+            f = 0.5 if rng.random() < 0.1 else rng.uniform(0.5, 1.0)
+            delta = dirn * ls_ * 10.0 ** rng.uniform(-4.0, -0.8)
+    else:
+        raise ValueError(cls)
+    drel = np.linalg.solve(v.T, delta)
+    best = None
+    for sign in ((1.0, -1.0) if rng.random() < 0.5 else (-1.0, 1.0)):
+        q = sign * f * n + drel
+        over = np.abs(q) > 1.0
+        q[over] -= 2.0 * drel[over]                            # offset turned inwards where it left the cell
+        if r0 is None:
+            lo, hi = np.maximum(0.0, -q), np.minimum(1.0, 1.0 - q)
+            a = rng.uniform(lo, hi)
+            pin = rng.random(3) < 0.25                         # on the face where the range ends
+            a = np.where(pin, np.where(rng.random(3) < 0.5, lo, hi), a)
+            return a, a + q
+        b = np.asarray(r0, float) + q
+        if best is None or _inside(b):
+            best = b
+            if _inside(b):
+                break
+    return r0, best
+
+
+def rel_pair(rng, cls, vects, r0=None, pbc=None):
     """Relative coordinates (r0, r1) of one pair of class ``cls``.  When ``r0``
     is given (one-to-many calls) only r1 is drawn, relative to that r0."""
     v = np.asarray(vects, float)
     fixed = r0 is not None
+    if cls in NEAR_SHORT:
+        return near_short_pair(rng, cls, v, pbc, r0)
     if cls == 'inside':
         a = r0 if fixed else _rel_point(rng, 'inside')
         return a, _rel_point(rng, 'inside')
@@ -175,10 +339,11 @@ def rel_pair(rng, cls, vects, r0=None):
     raise ValueError(cls)
 
 
-def gen_pairs(rng, cell, n, offset=0, single0=None):
+def gen_pairs(rng, cell, n, offset=0, single0=None, pbc=None):
     """n pairs whose classes rotate over PAIR_CLASSES starting at ``offset``.
     Returns rel0 (n,3), rel1 (n,3), classes (list), pos0, pos1 (Cartesian).
-    single0: class of the single reference point for one-to-many calls."""
+    single0: class of the single reference point for one-to-many calls.
+    pbc: the periodicity setting the pairs will be used with (steers the near-short-lattice-vector classes only)."""
     v, o = cell['vects'], cell['origin']
     r0s, r1s, cl = [], [], []
     fixed = None
@@ -186,7 +351,7 @@ def gen_pairs(rng, cell, n, offset=0, single0=None):
         fixed = _rel_point(rng, single0)
     for k in range(n):
         c = PAIR_CLASSES[(k + offset) % len(PAIR_CLASSES)]
-        a, b = rel_pair(rng, c, v, fixed)
+        a, b = rel_pair(rng, c, v, fixed, pbc)
         r0s.append(np.asarray(a, float))
         r1s.append(np.asarray(b, float))
         cl.append(c)
